@@ -16,6 +16,7 @@ import (
 	"os"
 	"path/filepath"
 	"strconv"
+	"strings"
 	"sync"
 	"syscall"
 	"time"
@@ -60,10 +61,20 @@ const (
 // at the time slot that equals the entry's sequence, so every entry is individually visible in a
 // leaf-level read and a replayed duplicate shows up as the value 2.
 type entry struct {
-	Seq    int64
+	Seq    int64 // sequence in ITS leader's log
 	Metric int
 	Tagv   int
-	Bad    bool // the payload is not a snappy block: Replica cannot decompress it
+	Bad    bool          // the payload is not a snappy block: Replica cannot decompress it
+	Leader models.NodeID // the leader whose log partition holds the entry (0 = the node itself)
+	Slot   int64         // index among all entries of the case = the time slot of its row
+}
+
+// ldr is the leader of the entry's log (entries built without one belong to the node's own log).
+func (e entry) ldr() models.NodeID {
+	if e.Leader == 0 {
+		return leader
+	}
+	return e.Leader
 }
 
 func metricName(m int) string { return "m" + strconv.Itoa(m) }
@@ -105,9 +116,54 @@ type node struct {
 	postAck func()
 	closed  bool
 
+	// the fields part / fq / cg / imageAck / imageConsumed / walLost above are those of the CURRENT
+	// lane (leader); use() switches. lanes keeps every leader's partition of the family on this node.
+	cur       models.NodeID
+	leaders   []models.NodeID
+	lanes     map[models.NodeID]*laneState
+	cachedSeq map[models.NodeID]positions // family sequences when the family mutex is not available (inside Close)
+	noFamLock bool
+
 	// consumer group positions as found in the directory (before NewLocalReplicator acknowledges
 	// the persisted sequence and rewinds)
 	imageAck, imageConsumed int64
+}
+
+// laneState is one leader's log partition of the family on this node.
+type laneState struct {
+	part                    replica.Partition
+	fq                      queue.FanOutQueue
+	cg                      queue.ConsumerGroup
+	imageAck, imageConsumed int64
+	walLost                 bool
+}
+
+// use makes leader l's partition the current one.
+func (n *node) use(l models.NodeID) {
+	if n.cur == l {
+		return
+	}
+	n.save()
+	ln := n.lanes[l]
+	n.cur = l
+	n.part, n.fq, n.cg, n.imageAck, n.imageConsumed, n.walLost = ln.part, ln.fq, ln.cg, ln.imageAck, ln.imageConsumed, ln.walLost
+}
+
+func (n *node) save() {
+	if ln, ok := n.lanes[n.cur]; ok {
+		ln.part, ln.fq, ln.cg, ln.imageAck, ln.imageConsumed, ln.walLost = n.part, n.fq, n.cg, n.imageAck, n.imageConsumed, n.walLost
+	}
+}
+
+// anyWalLost: some partition was destroyed while this process was running.
+func (n *node) anyWalLost() bool {
+	n.save()
+	for _, ln := range n.lanes {
+		if ln.walLost {
+			return true
+		}
+	}
+	return false
 }
 
 // famHooks are called from inside lindb's own localReplicator.Replica through the DataFamily the
@@ -214,17 +270,21 @@ func setConfig(root string) {
 	config.SetGlobalStorageConfig(cfg)
 }
 
-func walDir(root string, famTime int64) string {
+func walDir(root string, famTime int64, l models.NodeID) string {
 	// same layout as replica.writeAheadLog: <wal>/<db>/<shard>/<family time>/<leader>
 	return filepath.Join(root, "wal", dbName, strconv.Itoa(int(shardID)),
-		commontimeutil.FormatTimestamp(famTime, commontimeutil.DataTimeFormat4), strconv.Itoa(int(leader)))
+		commontimeutil.FormatTimestamp(famTime, commontimeutil.DataTimeFormat4), strconv.Itoa(int(l)))
 }
 
 // openNode opens (fresh dir) or recovers (crash image) the node in root.
-func openNode(root string, famTime int64, expired bool) (n *node, err error) {
+func openNode(root string, famTime int64, expired bool, leaders ...models.NodeID) (n *node, err error) {
 	installGlobals()
 	setConfig(root)
-	n = &node{root: root, famTime: famTime, hooks: &famHooks{}, expired: expired}
+	if len(leaders) == 0 {
+		leaders = []models.NodeID{leader}
+	}
+	n = &node{root: root, famTime: famTime, hooks: &famHooks{}, expired: expired, leaders: leaders,
+		lanes: map[models.NodeID]*laneState{}, cachedSeq: map[models.NodeID]positions{}}
 	currentHooks = n.hooks
 	defer func() {
 		if r := recover(); r != nil {
@@ -252,20 +312,23 @@ func openNode(root string, famTime int64, expired bool) (n *node, err error) {
 	if n.fam, err = n.shard.GetOrCrateDataFamily(famTime); err != nil {
 		return nil, err
 	}
-	// our callback is registered BEFORE the replicator's, so at every flush it runs between the
-	// data commit and the WAL acknowledgement.
-	n.fam.AckSequence(leader32, func(int64) {
-		if n.midFlush != nil {
-			n.midFlush()
-		}
-	})
-	dir := walDir(root, famTime)
-	n.imageAck, n.imageConsumed = readGroupMeta(dir)
-	_, statErr := os.Stat(filepath.Join(dir, "cg"))
-	existed := statErr == nil
+	// our callbacks are registered BEFORE the replicators', so at every flush the first of them runs
+	// between the data commit and the first WAL acknowledgement.
+	for _, l := range leaders {
+		n.fam.AckSequence(int32(l), func(int64) {
+			if n.midFlush != nil {
+				n.midFlush()
+			}
+		})
+	}
 	ctx, cancel := context.WithCancel(context.Background())
 	n.cancel = cancel
 	n.mgr = replica.NewWriteAheadLogManager(ctx, config.GlobalStorageConfig().WAL, leader, n.eng, nil, nil)
+	for _, l := range leaders {
+		ln := &laneState{}
+		ln.imageAck, ln.imageConsumed = readGroupMeta(walDir(root, famTime, l))
+		n.lanes[l] = ln
+	}
 	if _, e := os.Stat(filepath.Join(root, "wal")); e == nil {
 		// storage runtime start: recover the local write-ahead logs (real directory walk,
 		// GetOrCreatePartition + partition.recovery per leader directory)
@@ -274,41 +337,53 @@ func openNode(root string, famTime int64, expired bool) (n *node, err error) {
 		}
 	}
 	log := n.mgr.GetOrCreateLog(dbName)
-	if p, ok := replica.VerifHasPartition(log, shardID, famTime, leader); ok {
-		n.part = p
-	} else if !existed && !n.walWasRemoved() {
-		// first write of the leader for this family
-		if n.part, err = log.GetOrCreatePartition(shardID, famTime, leader); err != nil {
-			return nil, err
+	for _, l := range leaders {
+		ln := n.lanes[l]
+		_, statErr := os.Stat(filepath.Join(walDir(root, famTime, l), "cg"))
+		existed := statErr == nil
+		if p, ok := replica.VerifHasPartition(log, shardID, famTime, l); ok {
+			ln.part = p
+		} else if !existed && !n.walWasRemoved(l) {
+			// first write / first replication stream of that leader for this family
+			if ln.part, err = log.GetOrCreatePartition(shardID, famTime, l); err != nil {
+				return nil, err
+			}
+			if l == leader {
+				err = ln.part.BuildReplicaForLeader(leader, []models.NodeID{leader})
+			} else {
+				err = ln.part.BuildReplicaForFollower(l, leader)
+			}
+			if err != nil {
+				return nil, err
+			}
+			if err = os.WriteFile(filepath.Join(root, "wal-created-"+strconv.Itoa(int(l))), []byte("1"), 0o644); err != nil {
+				return nil, err
+			}
 		}
-		if err = n.part.BuildReplicaForLeader(leader, []models.NodeID{leader}); err != nil {
-			return nil, err
+		if ln.part != nil {
+			fq, ok := replica.VerifPartitionLog(ln.part)
+			if !ok {
+				return nil, errors.New("partition without log")
+			}
+			ln.fq = fq
+			if ln.cg, err = ln.fq.GetOrCreateConsumerGroup(strconv.Itoa(int(leader))); err != nil {
+				return nil, err
+			}
 		}
-		if err = os.WriteFile(filepath.Join(root, "wal-created"), []byte("1"), 0o644); err != nil {
-			return nil, err
-		}
+		n.fam.AckSequence(int32(l), func(int64) {
+			if n.postAck != nil {
+				n.postAck()
+			}
+		})
 	}
-	if n.part != nil {
-		fq, ok := replica.VerifPartitionLog(n.part)
-		if !ok {
-			return nil, errors.New("partition without log")
-		}
-		n.fq = fq
-		if n.cg, err = n.fq.GetOrCreateConsumerGroup(strconv.Itoa(int(leader))); err != nil {
-			return nil, err
-		}
-	}
-	n.fam.AckSequence(leader32, func(int64) {
-		if n.postAck != nil {
-			n.postAck()
-		}
-	})
+	n.cur = 0
+	n.use(leaders[0])
 	return n, nil
 }
 
 // walWasRemoved: the node once had a log for the family (marker file) and its directory is gone.
-func (n *node) walWasRemoved() bool {
-	_, e := os.Stat(filepath.Join(n.root, "wal-created"))
+func (n *node) walWasRemoved(l models.NodeID) bool {
+	_, e := os.Stat(filepath.Join(n.root, "wal-created-"+strconv.Itoa(int(l))))
 	return e == nil
 }
 
@@ -343,7 +418,7 @@ func (n *node) close() {
 		// flush the family, and the replicator's ack callback of a partition that was destroyed
 		// stores into an unmapped page (a fatal fault, not a panic). Nothing is lost by leaking it:
 		// the directory is a scratch copy.
-		if n.eng != nil && !n.walLost {
+		if n.eng != nil && !n.anyWalLost() {
 			n.eng.Close()
 		}
 		if n.mgr != nil {
@@ -386,19 +461,48 @@ func (p positions) String() string {
 func (n *node) storedSeq() (int64, bool) {
 	snap := n.fam.Family().GetSnapshot()
 	defer snap.Close()
-	v, ok := snap.GetCurrent().GetSequences()[leader32]
+	v, ok := snap.GetCurrent().GetSequences()[int32(n.cur)]
 	return v, ok
 }
 
+// pos = the positions of the current lane.
 func (n *node) pos() positions {
 	p := positions{walGone: n.part == nil, appended: -1, consumed: -1, ack: -1}
 	if n.part != nil {
 		p.appended, p.consumed, p.ack = n.fq.Queue().AppendedSeq(), n.cg.ConsumedSeq(), n.cg.AcknowledgedSeq()
 	}
-	st := n.fam.GetState()
-	p.seq, p.hasSeq = st.ReplicaSequences[leader32]
+	if n.noFamLock {
+		// inside dataFamily.Close the family mutex is held: the replica sequences cannot move, use the last ones
+		c := n.cachedSeq[n.cur]
+		p.seq, p.hasSeq = c.seq, c.hasSeq
+	} else {
+		st := n.fam.GetState()
+		p.seq, p.hasSeq = st.ReplicaSequences[int32(n.cur)]
+		n.cachedSeq[n.cur] = p
+	}
 	p.stored, p.hasStored = n.storedSeq()
 	return p
+}
+
+// posOf = the positions of leader l's lane.
+func (n *node) posOf(l models.NodeID) positions {
+	old := n.cur
+	n.use(l)
+	p := n.pos()
+	n.use(old)
+	return p
+}
+
+// posAll renders the positions of all lanes: a single lane as is, several as L<leader>{...}.
+func (n *node) posAll() string {
+	if len(n.leaders) == 1 {
+		return n.pos().String()
+	}
+	var parts []string
+	for _, l := range n.leaders {
+		parts = append(parts, fmt.Sprintf("L%d{%s}", l, n.posOf(l)))
+	}
+	return strings.Join(parts, " ")
 }
 
 // ---------------------------------------------------------------- writes
@@ -409,7 +513,7 @@ func (e entry) message(famTime int64) ([]byte, error) {
 	}
 	cv := metric.NewProtoConverter(models.NewDefaultLimits())
 	blk, err := cv.MarshalProtoMetricV1(&protoMetricsV1.Metric{
-		Namespace: nsName, Name: metricName(e.Metric), Timestamp: famTime + e.Seq*interval,
+		Namespace: nsName, Name: metricName(e.Metric), Timestamp: famTime + e.Slot*interval,
 		Tags:         []*protoMetricsV1.KeyValue{{Key: tagKey, Value: tagValue(e.Tagv)}},
 		SimpleFields: []*protoMetricsV1.SimpleField{{Name: fieldName, Type: protoMetricsV1.SimpleFieldType_DELTA_SUM, Value: 1}},
 	})
@@ -435,7 +539,16 @@ func (n *node) appendEntry(e entry) error {
 	if err != nil {
 		return err
 	}
-	return n.part.WriteLog(msg)
+	if n.cur == leader {
+		return n.part.WriteLog(msg) // the leader's own write path
+	}
+	// a follower receives the leader's entries through ReplicaLog(index, msg)
+	idx := n.part.ReplicaAckIndex() + 1
+	got, err := n.part.ReplicaLog(idx, msg)
+	if err == nil && got != idx {
+		err = fmt.Errorf("ReplicaLog(%d) answered %d", idx, got)
+	}
+	return err
 }
 
 // preregister creates the metric / field / tag-key ids of e from THIS goroutine before the row is
@@ -465,12 +578,17 @@ func (n *node) walGC() error {
 	if !replica.VerifGarbageCollect(n.mgr) {
 		return errors.New("not lindb's WAL manager")
 	}
-	if n.part != nil {
-		if _, ok := replica.VerifHasPartition(n.mgr.GetOrCreateLog(dbName), shardID, n.famTime, leader); !ok {
-			n.part, n.fq, n.cg = nil, nil, nil
-			n.walLost = true
+	old := n.cur
+	for _, l := range n.leaders {
+		n.use(l)
+		if n.part != nil {
+			if _, ok := replica.VerifHasPartition(n.mgr.GetOrCreateLog(dbName), shardID, n.famTime, l); !ok {
+				n.part, n.fq, n.cg = nil, nil, nil
+				n.walLost = true
+			}
 		}
 	}
+	n.use(old)
 	return nil
 }
 
